@@ -73,4 +73,19 @@ TEXT = {
   "note": "trusted: Lean kernel; TIR semantics; block order input",
   "technique": "Lean 4 simulation proof + exact correspondence + paired concrete executions",
  },
+ "C11": {
+  "level": "proof (partial): 26 Lean theorems over the transcription of intra_necessary_preconditions_abs_transformer and BackwardAssignOps: per-statement and per-block backward soundness (C11.bwd_stmt_sound, bwd_block_sound, failing asserts in error mode), exactness of the two reachability passes that collect blocks which cannot reach the exit but can fail, C11.bwd_run_sound / bwd_precondition_sound (every co-reachable state is in the reported precondition of its block; obtained by instantiating the engine theorem C01.run_sound on the reversed graph), C11.empty_entry_precondition_safe, generic_backward_assign/apply_sound (incl. division by a constant), and replay_witness_coreach (every witness the driver reports is a real co-reachability witness). Tied to the code by the backward harness over 7 domains (error/good mode, supplied invariants true/top/none, single backward transformers, forward+backward safe verdicts). The backward contract of each shipped domain is tested, not proved",
+  "note": "trusted: Lean kernel; BSemantics as the meaning of programs; bounded witness search; WTO of the reversed graph taken as input",
+  "technique": "Lean 4 theorems (engine theorem instantiated on the reversed CFG) + refinement correspondence by witness-execution search",
+ },
+ "C09": {
+  "level": "proof (partial): Lean theorems over the transcription of the call/return bookkeeping of top_down_inter_analyzer: C09.restrict_sound (get_callee_entry), C09.call_sound (get_caller_continuation incl. x=f(x), killed arguments, forgetting of callee locals) under the explicit name-sharing hypothesis SeqOK/CallOK (with a counterexample theorem showing the hypothesis is needed: known finding F29), C09.reuse_exact_sound (a summary may be reused for d <= pre, from the collecting semantics), lookup_sound, and the repaired context policy (fixed_policy_add_valid, fixed_lookup_sound). Whole-call-graph soundness, the recursion fixpoint and the checker integration are decided by the refinement harness only: the REAL analyzer on generated multi-function programs x all parameter settings x 5 domains, checked against call-stack executions (invariants and every stored summary)",
+  "note": "trusted: Lean kernel; ISemantics as the meaning of programs; sampling; open known findings F29 (sequential parameter wiring with cross-position shared names) and F30 (mutual recursion entered through the non-head member) are recorded with matchers on the minimised shape",
+  "technique": "Lean 4 theorems (call/return transformers, summary reuse) + refinement correspondence by call-stack execution",
+ },
+ "C10": {
+  "level": "proof (partial): C10.summary_instantiate_sound (renaming lemma for re-instantiating a bottom-up summary at a call site, for any domain with sound rename/meet/forget); everything else (summary computation over the SCC order, top-down phase, different summary/forward domains) is decided by the refinement harness: the REAL bottom_up_inter_analyzer on generated programs for 5 (summary, forward) domain pairs, invariants and summaries checked against call-stack executions",
+  "note": "as C09 (F29 also affects the bottom-up transformer)",
+  "technique": "Lean 4 theorem (summary instantiation) + refinement correspondence by call-stack execution",
+ },
 }
